@@ -46,7 +46,8 @@ class MinSetCover():
         self.set_cover = []
         self.set_cover_indices = []
         self.set_cover_weights = []
-        self.solver_options = solver_options
+        # None stands for the default (no option given), as in the k-models
+        self.solver_options = solver_options if solver_options is not None else {}
 
         self._is_solved = None
         self._solution = None
